@@ -39,7 +39,7 @@ struct fit_t
     std::string what;
 };
 
-fit_t fit_once(const problem_t& p, const string_t& id, const string_t& criterion, int cores, int64_t pool, int64_t depth)
+fit_t fit_once(const problem_t& p, const string_t& id, const string_t& criterion, int cores, int64_t pool, int64_t depth, bool used_before = false)
 {
     fit_t f;
     simrt_set_cores(cores);
@@ -53,6 +53,27 @@ fit_t fit_once(const problem_t& p, const string_t& id, const string_t& criterion
         {
             f.learner->parameter("wlearner::dtree::max_depth") = depth;
             f.learner->parameter("wlearner::dtree::min_split") = 1;
+        }
+        if (used_before)
+        {
+            // the same learner OBJECT has been fitted before, on other residuals and another sample list: a fit starts from scratch
+            tensor4d_t other = p.gradients;
+            for (tensor_size_t i = 0; i < other.size(); ++i)
+            {
+                other(i) = -0.5 * p.gradients(other.size() - 1 - i) + (i % 3 == 0 ? 1.0 : 0.0);
+            }
+            indices_t some(std::max<tensor_size_t>(1, p.samples.size() / 2));
+            for (tensor_size_t i = 0; i < some.size(); ++i)
+            {
+                some(i) = p.samples(p.samples.size() - 1 - i);
+            }
+            try
+            {
+                f.learner->fit(dataset, some, other);
+            }
+            catch (const std::exception&)
+            {
+            }
         }
         f.score  = f.learner->fit(dataset, p.samples, p.gradients);
         f.fitted = f.score != wlearner_t::no_fit_score();
@@ -445,15 +466,36 @@ void body(ctx_t& c)
                " pool=" + std::to_string(pool) + (id == "dtree" ? " depth=" + std::to_string(depth) : std::string());
 
     const auto ref = fit_once(p, id, criterion, 1, 1, depth);
-    const auto sim = fit_once(p, id, criterion, c.cfg.cores, pool, depth);
+    const bool used_before = r.coin(0.3);
+    if (used_before)
+    {
+        c.probe("fit_on_a_learner_fitted_before");
+    }
+    const auto sim = fit_once(p, id, criterion, c.cfg.cores, pool, depth, used_before);
     if (std::min<int64_t>(pool, c.cfg.cores) >= 2)
     {
         c.probe("fits_through_the_pool");
     }
+    // (a divergence of a fit on a learner object that was fitted before is attributed: the same pooled fit on a fresh object)
+    const auto differs = [&](const std::string& what)
+    {
+        if (used_before)
+        {
+            const auto fresh = fit_once(p, id, criterion, c.cfg.cores, pool, depth, false);
+            double     w     = 0.0;
+            if (fresh.threw == ref.threw && fresh.fitted == ref.fitted &&
+                (!ref.fitted || (vf::close(ref.score, fresh.score, 1e-12, 1e-300) && close_tensor(ref.predictions, fresh.predictions, 1e-12, w))))
+            {
+                c.fail("fit-depends-on-earlier-fit", what + " [the same fit on a fresh learner object agrees with the one-core fit: the earlier fit of the object leaks]");
+                return;
+            }
+        }
+        c.fail("fit-depends-on-schedule", what);
+    };
     // (i) schedule differential
     if (ref.threw != sim.threw || ref.fitted != sim.fitted)
     {
-        c.fail("fit-depends-on-schedule", id + ": fit outcome differs between one core and the pooled schedule (" + ref.what + sim.what + ")");
+        differs(id + ": fit outcome differs between one core and the pooled schedule (" + ref.what + sim.what + ")");
         return;
     }
     if (ref.threw)
@@ -470,20 +512,20 @@ void body(ctx_t& c)
     c.probe("fitted_" + id);
     if (!vf::close(ref.score, sim.score, 1e-12, 1e-300))
     {
-        c.fail("fit-depends-on-schedule", id + ": score " + std::to_string(ref.score) + " on one core vs " + std::to_string(sim.score) + " through the pool");
+        differs(id + ": score " + std::to_string(ref.score) + " on one core vs " + std::to_string(sim.score) + " through the pool");
         return;
     }
     double worst = 0.0;
     if (!close_tensor(ref.predictions, sim.predictions, 1e-12, worst))
     {
-        c.fail("fit-depends-on-schedule", id + ": predictions of the pooled fit differ from the one-core fit by " + std::to_string(worst) + " relative");
+        differs(id + ": predictions of the pooled fit differ from the one-core fit by " + std::to_string(worst) + " relative");
         return;
     }
     {
         const auto fa = ref.learner->features(), fb = sim.learner->features();
         if (fa.size() != fb.size() || !std::equal(std::begin(fa), std::end(fa), std::begin(fb)))
         {
-            c.fail("fit-depends-on-schedule", id + ": selected features differ between one core and the pooled schedule");
+            differs(id + ": selected features differ between one core and the pooled schedule");
             return;
         }
     }
